@@ -24,6 +24,9 @@ TRUSTED = [
     'FormatString.__init__, add_argument, Conversion.__init__, get_last_integer_conversion)',
     'Spec/Printf.v: hand-written reading of printf(3) / C99 7.19.6.1 / POSIX %n$ / glibc extensions',
     'Generated/CInfo.v (_info tables, INT_MAX, NL_ARGMAX), regenerated from /repo on every run',
+    'source translator tools/gen/gen_fmtc_src.py (python ast -> Gallina, fail-closed subset; rules in its docstring) and its vocabulary '
+    'Model/FmtCPy.v (incl. match_of_dir / finditer_of: which regex groups a directive of the model has): Generated/FmtCSrc.v is '
+    'trusted to mean what FormatString.add_argument, Conversion.__init__ and FormatString.__init__ mean',
     'extraction (ExtrOcamlBasic only) + ocaml/driver.ml + zarith for decimal I/O',
     'harness reference ref_printf (tools/harness/c11.py): hand-written tokenizer and validity/type tables written from the '
     'printf(3) manual page, independent of the model and of c.py',
